@@ -84,10 +84,15 @@ class FailureMonitor(Monitor):
         self.distributions = []    # times at which an instance published DISTRIBUTION
         self.warm = False
         self.exits = {}
+        self.invalidated_at = {}   # (observer idx, identifier) -> time at which the observer invalidated it
         self.alive_at = {}
         self.prev_truth_at = {}
         self.user_stops = {}       # application -> (time, idx, inc, requested on the Master)
         self.stop_watch = {}       # application -> (time of the loss, idx lost) while its stop job was in progress
+
+    def on_instance_state(self, inst, identifier, new_state):
+        if new_state.name in ('STOPPED', 'ISOLATED'):
+            self.invalidated_at[(inst.idx, identifier)] = inst.world.now
 
     def on_warmup_end(self, world):
         self.warm = True
@@ -199,7 +204,12 @@ class FailureMonitor(Monitor):
             app = self.ref.apps[app_name]
             if len(events) > 1 and all(e['kind'] == 'loss' for e in events) \
                     and max(e['time'] for e in events) - min(e['time'] for e in events) <= 1.0:
-                # instances lost together (one node with several instances, a switch failure): one disturbance
+                # instances lost together (one node with several instances, a switch failure): one disturbance - if the
+                # Master invalidated them in the same round (the detection depends on the TICK phases)
+                rounds = {self.invalidated_at.get((master.idx, world.instances[e['idx']].identifier)) for e in events}
+                if len(rounds) != 1 or None in rounds:
+                    self.flags.add('losses-detected-in-different-rounds')
+                    continue
                 merged = dict(events[0])
                 merged['idxs'] = [e['idx'] for e in events]
                 hosted = {n for e in events for n, st_ in self.prev_truth_at.get((e['time'], e['idx']), {}).items()
